@@ -1335,6 +1335,19 @@ def check_oversize(case):
         elif what == "ext_payload":
             b = E.TLSExtension(extType=0xff0).create(prg("x",
                                                          65536)).write()
+        elif what == "hs_body_2^24":
+            # the 24-bit handshake length itself
+            b = M.Finished((3, 3)).create(bytearray(1 << 24)).write()
+        elif what == "hs_body_2^24+5":
+            b = M.CertificateStatus().create(1, bytearray((1 << 24) + 1)
+                                             ).write()
+        elif what == "hs_body_2^24-1":
+            b = M.Finished((3, 3)).create(bytearray((1 << 24) - 1)).write()
+            if len(b) == (1 << 24) + 3 and b[:4] == b"\x14\xff\xff\xff":
+                return good(labels=labels + ["largest-legal"])
+            return bad("largest-handshake-body-misencoded",
+                       "header %s for a body of 2^24-1 bytes" % bytes(
+                           b[:4]).hex(), labels=labels)
         else:
             b = rec_oversize(what)
             if b is None:
@@ -1631,7 +1644,8 @@ def explicit(tier, seed):
             yield {"src": "corpus", "idx": i, "mut": ["inc", k, False]}
     for what in ("sid", "alpn_name", "sni_name", "cookie", "suites",
                  "ticket", "nonce13", "npn", "groups", "psk_binder",
-                 "cv_sig", "ext_payload", "rh3_len", "rh2_len",
+                 "cv_sig", "ext_payload", "hs_body_2^24",
+                 "hs_body_2^24+5", "hs_body_2^24-1", "rh3_len", "rh2_len",
                  "rh2_len_pad", "alert_desc", "hb_payload", "stp_ms",
                  "stp_nonce", "stp_sn", "cmk_key", "sh2_cert", "ch2_sid"):
         yield {"src": "oversize", "what": what}
